@@ -313,7 +313,11 @@ int32_t jls_wr_user_data(struct jls_wr_s * self, uint16_t chunk_meta,
 
     switch (storage_type) {
         case JLS_STORAGE_TYPE_INVALID:
-            data_size = 0; // allowed, but should only be used for the initial chunk.
+            if (self->core.user_data_head.offset) {
+                // only the initial chunk, written by jls_wr_open: the reader cannot return such an item
+                return JLS_ERROR_PARAMETER_INVALID;
+            }
+            data_size = 0;
             break;
         case JLS_STORAGE_TYPE_BINARY:
             break;
